@@ -373,11 +373,19 @@ def check_end_to_end(ctx, c):
         x_arg = np.array(x if dim > 1 else x[0], dtype=np.double, order="C")
         if stored:
             srf.set_pos(x_arg)
+        # seeds of an ensemble: independent draws, or a counter started at a large number (20170519 + i)
+        consecutive = (c["cseed"] // 2) % 2 == 0
+        base_seed = int(rng.choice([20170519, 2**31 - 5000, 1000000]))
         for s in range(S):
+            sd = base_seed + s if consecutive else int(rng.integers(1, 1 << 30))
             if stored:
-                vals[s] = srf(seed=int(rng.integers(1, 1 << 30)))
+                vals[s] = srf(seed=sd)
             else:
-                vals[s] = srf(x_arg, seed=int(rng.integers(1, 1 << 30)))
+                vals[s] = srf(x_arg, seed=sd)
+        if len({vals[s].tobytes() for s in range(min(S, 50))}) < min(S, 50):
+            ctx.fail({"model": d["name"], "dim": dim, "what": "different-seeds-give-identical-fields", "seeds": "consecutive" if consecutive else "random"},
+                     f"{min(S, 50) - len({vals[s].tobytes() for s in range(min(S, 50))})} of the first {min(S, 50)} realisations repeat an earlier one")
+            return
         if not np.array_equal(x_arg.reshape(x.shape), x):
             ctx.fail({"model": d["name"], "dim": dim, "what": "positions-handed-over-were-modified"}, f"the caller's position array changed during {S} calls (max {common.maxabs(x_arg.reshape(x.shape) - x):.3e})")
             return
